@@ -68,21 +68,21 @@ def canonical_cores(n):
 
 def build_rows(core, coll, tie=None):
     rows = []
-    score = 100.0
+    score = 100.3712345678  # 13 significant digits: a score column narrowed to float32 would be visible
     for j, (sp, pep) in enumerate(core):
         if tie is not None and j == tie + 1:
-            score += 1.0  # equal to the previous row
+            score = round(score + 1.1300000123, 10)  # equal to the previous row
         rows.append(dict(id=f"c{coll}r{j}", scan=sp, label=pep[0] == "T", peptide=pep + "PEPK", score=score,
                          mod=pep + "PEPK" + ("[x]" if j % 2 else "[y]"), group="G" + pep[0],
                          mod_same=pep + "PEPK" + ("[x]" if j % 2 else ""), group_same=pep + "PEPK" if j % 3 == 0 else "G" + pep[0]))
-        score -= 1.0
-    score = 50.0
+        score = round(score - 1.1300000123, 10)
+    score = 50.2112345678
     for k in range(2 * NBALLAST):
         t = k % 2 == 0
         pep = ("TZ" if t else "DZ") + "AL" + "ACDEFGHILMNQ"[k] + "K"
         rows.append(dict(id=f"c{coll}b{k}", scan=11 + k, label=t, peptide=pep, score=score, mod=pep + "[z]",
                          group="G" + pep, mod_same=pep, group_same=pep))
-        score -= 1.0
+        score = round(score - 1.0700000321, 10)
     for r in rows:
         r["spectrum"] = r["scan"]
         r["prec"] = r["mod"] + "/" + str(2 + r["scan"] % 2)
@@ -195,7 +195,7 @@ def validate_collection(rows, cfg, files, has_tie, add):
                 r = by_id.get(row["PSMId"])
                 if r is None:
                     continue
-                if row["peptide"] != r["peptide"] or row["proteinIds"] != r["proteins"] or float(row["score"]) != r["score"]:
+                if row["peptide"] != r["peptide"] or row["proteinIds"] != r["proteins"] or abs(float(row["score"]) - r["score"]) > 1e-9 * abs(r["score"]):
                     add(f"{fname}-row-mixed", f"{name}.{fname}: row {row['PSMId']} carries "
                         f"({row['peptide']},{row['proteinIds']},{row['score']}) but the input PSM is "
                         f"({r['peptide']},{r['proteins']},{r['score']})")
@@ -325,7 +325,7 @@ def rollup_tool(case, cfg, colls, retained_all, src, work, add):
                     continue
                 if r["label"] != want:
                     add(f"rollup-{fname}-wrong-file", f"{row['psm_id']} in {name}")
-                if row["peptide"] != r["peptide"] or float(row["score"]) != r["score"] or row["proteinIds"] != r["proteins"]:
+                if row["peptide"] != r["peptide"] or abs(float(row["score"]) - r["score"]) > 1e-9 * abs(r["score"]) or row["proteinIds"] != r["proteins"]:
                     add(f"rollup-{fname}-row-mixed", f"row {row['psm_id']} carries fields of another PSM")
                 a, b = qref[row["psm_id"]]
                 if abs(float(row["q_value"]) - a / b) > 1e-6:
